@@ -35,6 +35,7 @@ type Config struct {
 	MaxConcretize   int
 	DurationWitness bool
 	Race            bool
+	AllMapOrders    bool
 	MaxPreempt      int
 	MaxSteps        int64
 	MaxDepth        int
@@ -126,6 +127,7 @@ func cmdRun(mode string, args []string) int {
 	fs.IntVar(&cfg.MaxDecisions, "max-decisions", 400, "decisions per path (unwinding bound)")
 	fs.IntVar(&cfg.MaxConcretize, "max-concretize", 300, "values per concretisation")
 	fs.BoolVar(&cfg.DurationWitness, "duration-witness", false, "abstraction: a symbolic duration passed to context.WithTimeout is represented by one witness per sign class")
+	fs.BoolVar(&cfg.AllMapOrders, "all-map-orders", false, "every range over every map explores all iteration orders (as verifMapOrder does for one map)")
 	fs.BoolVar(&cfg.Race, "race", false, "happens-before data-race monitor on the accesses of the code under test (race.go)")
 	fs.IntVar(&cfg.MaxPreempt, "preempt", 0, "delay bound: scheduling deviations (incl. timer firings while threads can run) per path")
 	fs.Int64Var(&cfg.MaxSteps, "max-steps", 20000000, "instructions per path")
